@@ -1,8 +1,9 @@
 #!/bin/bash
-# development aid: does a refactoring script/patch keep `go build`, `go vet` and the cron tests green?
+# development aid: does a refactoring script/patch keep `go build`, `go vet` and the cron tests green? (KC_PREFIX_PATCH applied first)
 export GOFLAGS=-mod=mod GOPROXY=off GOSUMDB=off GOTOOLCHAIN=local GOWORK=off
 for f in "$@"; do
   D=$(mktemp -d /tmp/kcrt.XXXXXX); rsync -a --exclude .git /repo/ $D/
+  if [ -n "${KC_PREFIX_PATCH:-}" ]; then (cd $D && patch -s -p1 -N < "$KC_PREFIX_PATCH" >/dev/null 2>&1; true); fi
   case "$f" in
    *.sh) (cd $D && bash $f) >/dev/null 2>$D/.err || { echo "$(basename $f) APPLY-FAILED: $(cat $D/.err | tail -2)"; rm -rf $D; continue; } ;;
    *) (cd $D && patch -s -p1 < $f) || { echo "$(basename $f) APPLY-FAILED"; rm -rf $D; continue; } ;;
